@@ -283,6 +283,8 @@ class Interp:
         for f in self.st.pc:
             if not _has_quant(f):
                 s.add(f)
+        for f in S.str_lit_axioms():
+            s.add(f)
         self.eng.stats["feas_checks"] += 1
         return s.check() != z3.unsat
 
@@ -292,6 +294,8 @@ class Interp:
         for f in self.st.pc:
             if not _has_quant(f):
                 s.add(f)
+        for f in S.str_lit_axioms():
+            s.add(f)
         s.add(z3.Not(c))
         return s.check() == z3.unsat
 
